@@ -1070,7 +1070,37 @@ class Ctx(object):
             self.stats.identity += 1
             self.checks_on_path += 1
             return True
+        if not z3.is_bool(ta):
+            try:
+                d = z3.simplify(ta - tb, som=True)
+                if (z3.is_rational_value(d) or z3.is_int_value(d)) and d.as_fraction() == 0:
+                    self.stats.identity += 1
+                    self.checks_on_path += 1
+                    return True
+            except z3.Z3Exception:
+                pass
         return self.check(label, wrap(ta == tb), detail)
+
+    def check_root(self, label, got, num, den=1, alts=()):
+        """claim: got == sqrt(num)/den (den > 0).  Tried as a term identity against the
+        usual ways of writing it, then decided without roots: got*den >= 0 and
+        (got*den)^2 == num"""
+        cands = list(alts)
+        cands.append(lambda: sym_sqrt(num) / den if not (isinstance(den, int) and den == 1) else sym_sqrt(num))
+        if is_sym(got):
+            tg = real_term(got)
+            for mk in cands:
+                try:
+                    alt = mk()
+                except Exception:
+                    continue
+                if is_sym(alt) and real_term(alt).eq(tg):
+                    self.stats.identity += 1
+                    self.checks_on_path += 1
+                    return True
+        g = got * den
+        ok = self.check(label + " (sign)", g >= 0, detail=None)
+        return self.check_eq(label, g * g, num) and ok
 
     def fail(self, label, detail=None):
         """path-level failure (e.g. undeclared exception): candidate iff pc is sat"""
